@@ -61,9 +61,11 @@ def main_rs(def_ids, inputs_arg=True):
     lines.append("    let mut o = Out::create(&args[1]);")
     lines.append("    let ins = if args.len() > 2 { load_inputs(&args[2]) } else { Default::default() };")
     lines.append("    let seed: u64 = if args.len() > 3 { args[3].parse().unwrap() } else { 1 };")
+    lines.append("    let skip: Vec<u32> = if args.len() > 4 { args[4].split(',').filter_map(|x| x.parse().ok()).collect() } else { Vec::new() };")
     for i in def_ids:
         # a panic that escapes a driver is data about definition i, not a tool error
-        lines.append("    if let Err(p) = catch(std::panic::AssertUnwindSafe(|| d%d::run(&mut o, &ins, seed))) { o.line(&format!(\"{{\\\"op\\\":\\\"panic\\\",\\\"def\\\":%d,\\\"i\\\":0,\\\"msg\\\":{}}}\", jcps(&p))); }" % (i, i))
+        lines.append("    if !skip.contains(&%d) { o.begin(%d); }" % (i, i))
+        lines.append("    if skip.contains(&%d) {} else if let Err(p) = catch(std::panic::AssertUnwindSafe(|| d%d::run(&mut o, &ins, seed))) { o.line(&format!(\"{{\\\"op\\\":\\\"panic\\\",\\\"def\\\":%d,\\\"i\\\":0,\\\"msg\\\":{}}}\", jcps(&p))); }" % (i, i, i))
     lines.append("    o.finish();")
     lines.append("}")
     return "\n".join(lines) + "\n"
@@ -140,10 +142,27 @@ def run_driver(exe, tag, inputs=None, seed=1, timeout=3600, env=None):
             for s in ss:
                 f.write("%d\t%s\n" % (did, ",".join(str(ord(c)) for c in s)))
     args += [ip, str(seed)]
-    rc, out, err = core.run_bin(exe, args, timeout=timeout, env=env)
-    if rc != 0:
-        raise ToolError("driver %s exited with %d:\n%s" % (exe, rc, err[-3000:]))
-    evs = [json.loads(l) for l in open(tr)]
+    # a process that dies inside one definition's driver (stack overflow, abort: nothing a catch can turn into a panic event) is
+    # data about THAT definition: it is recorded as a panic event, and the drivers are run again without it
+    crashed = []
+    for attempt in range(9):
+        rc, out, err = core.run_bin(exe, args + [",".join(str(d) for d in crashed)], timeout=timeout, env=env)
+        evs = []
+        for l in open(tr):
+            try:
+                evs.append(json.loads(l))
+            except ValueError:
+                pass                      # a line cut off by the crash
+        if rc == 0:
+            break
+        begun = [e["def"] for e in evs if e.get("op") == "begin"]
+        if not begun or attempt == 8:
+            raise ToolError("driver %s exited with %d:\n%s" % (exe, rc, err[-3000:]))
+        crashed.append(begun[-1])
+        core.log("[%s] the driver process died (exit %d) inside definition %d: %s" % (tag, rc, begun[-1], err.strip().splitlines()[-1][:200] if err.strip() else ""))
+    evs = [e for e in evs if e.get("op") != "begin"]
+    for d in crashed:
+        evs.append({"op": "panic", "def": d, "i": 0, "msg": [ord(c) for c in "the process died inside this definition's driver (stack overflow or abort)"]})
     return evs
 
 
